@@ -15,6 +15,7 @@ RULE = ("every valid metric class (and the obsfcst table) x a random axis (all 1
         "threshold. With -f the file must hold exactly what stdout would have shown and nothing else may be written "
         "(audit hook). signature = (metric, axis, type, -f?, -leg?, -acc?, #inputs); non-trivial = >= 2 rows and >= 2 "
         "columns, not all NaN.")
+RULE += " " + "Duplicate -leg names and identical file names in different directories occur (each column must still carry its own file's scores)."
 ASSUMPTIONS = ["a mismatch of one unit in the last printed digit is excused (decimal rounding at the formatting boundary)"]
 REQUIRED_COUNTERS = ["tables", "values_compared", "descriptors_compared", "file_vs_stdout", "acc_tables", "refcli_tables", "audit_open_write"]
 ANCHOR_FUNCS = ["Output.csv", "Output.text", "Standard._get_x_y"]
